@@ -240,10 +240,12 @@ PROPS = {
         ],
         "bounded_ops": [
             {"op": "boundary_geometry", "budget": 2000, "what": "BOUNDED stand-in (sampled; not a proof) for the float sentences of C11: for "
-             "every cell of resolutions 0..2, cells around the meridians 87E / 93W (where the internal azimuth wraps), the antimeridian "
-             "and random cells of every resolution, with 1, 2 and 4 segments per edge: coordinates finite, |latitude| <= 90, corner "
-             "points of the 1-segment ring are points of the finer rings (1e-9 degrees), and - unless the ring reaches beyond 80 degrees "
-             "of latitude - longitudes within a 180-degree window, counter-clockwise orientation, reported centre inside the ring"},
+             "every cell of resolutions 0..2, cells around the meridians 87E / 93W (where the internal azimuth wraps), the antimeridian, "
+             "the polar caps down to 1e-5 degrees from a pole and random cells of every resolution, with 1, 2 and 4 segments per edge: "
+             "coordinates finite, |latitude| <= 90, corner points of the 1-segment ring are points of the finer rings (1e-9 degrees), "
+             "counter-clockwise orientation and reported centre inside the ring (signed spherical excess of every fan triangle "
+             "around the centre, valid at the poles), and - unless a pole lies within the cell's circumscribed circle - all longitudes "
+             "within a 180-degree window"},
         ],
         "search_ops": ["cell_to_boundary", "boundary_geometry"],
         "level_text": "Proof (Verus/Z3) on the real cell_to_boundary and get_pentagon that for every u64 and every options value the "
